@@ -329,6 +329,48 @@ theorem trim_fold (f : (Nat × V) → (Nat × V) → (Nat × V)) (size : Nat) (a
     rw [← trim_merge f size after acc' (compTrim size after m) hacc' (supp_trim hm size after),
       trim_idem, h, trim_merge f size after acc m hacc hm]
 
+theorem trim_mergeWhen (dec : KMap (Nat × V) → Bool) (f : (Nat × V) → (Nat × V) → (Nat × V)) (size : Nat)
+    (after : Option Int) (a b : KMap (Nat × V)) :
+    compTrim size after (compMergeWhen dec f size after a b) = compTrim size after (KMap.merge f a b) := by
+  unfold compMergeWhen
+  by_cases h : dec (KMap.merge f a b) = true
+  · simp only [h, if_true]; exact trim_idem _ _ _
+  · simp only [h, Bool.false_eq_true, if_false]
+
+theorem supp_mergeWhen (dec : KMap (Nat × V) → Bool) (f : (Nat × V) → (Nat × V) → (Nat × V)) (size : Nat)
+    (after : Option Int) {a b : KMap (Nat × V)} (ha : Supp a) (hb : Supp b) :
+    Supp (compMergeWhen dec f size after a b) := by
+  unfold compMergeWhen
+  by_cases h : dec (KMap.merge f a b) = true
+  · simp only [h, if_true]; exact supp_trim (supp_merge f ha hb) _ _
+  · simp only [h, Bool.false_eq_true, if_false]; exact supp_merge f ha hb
+
+/-- any number of segments, any trimming schedule at merge time: trimming every fruit and trimming
+after any of the merges does not change the trimmed fold -/
+theorem trim_fold_when (dec : KMap (Nat × V) → Bool) (f : (Nat × V) → (Nat × V) → (Nat × V)) (size : Nat)
+    (after : Option Int) :
+    ∀ (ms : List (KMap (Nat × V))) (acc acc' : KMap (Nat × V)), (∀ m ∈ ms, Supp m) → Supp acc → Supp acc' →
+      compTrim size after acc' = compTrim size after acc →
+      compTrim size after ((ms.map (compTrim size after)).foldl (compMergeWhen dec f size after) acc')
+        = compTrim size after (ms.foldl (KMap.merge f) acc)
+  | [], _, _, _, _, _, h => h
+  | m :: ms, acc, acc', hms, hacc, hacc', h => by
+    have hm : Supp m := hms m (List.mem_cons_self)
+    simp only [List.map_cons, List.foldl_cons]
+    apply trim_fold_when dec f size after ms _ _ (fun x hx => hms x (List.mem_cons_of_mem _ hx))
+      (supp_merge f hacc hm) (supp_mergeWhen dec f size after hacc' (supp_trim hm size after))
+    rw [trim_mergeWhen, ← trim_merge f size after acc' (compTrim size after m) hacc' (supp_trim hm size after),
+      trim_idem, h, trim_merge f size after acc m hacc hm]
+
+theorem compMergeFruits_eq_when (f : (Nat × V) → (Nat × V) → (Nat × V)) (size : Nat) (after : Option Int) :
+    compMergeFruits f size after
+      = compMergeWhen (fun m => decide (m.entries.length > 2 * size)) f size after := by
+  funext a b
+  unfold compMergeFruits compMergeWhen
+  by_cases h : (KMap.merge f a b).entries.length > 2 * size
+  · simp only [h, if_true, decide_true]
+  · simp only [h, if_false, decide_false, Bool.false_eq_true]
+
 theorem compPage_pred {W : Type} (size : Nat) (after : Option Int) (l : List (Int × Nat × W)) :
     compPage size after l = (l.filter (fun b => validKey after b.1)).take size := by
   unfold compPage validKey
@@ -419,6 +461,34 @@ theorem composite_eviction_invisible (srcs : List CompSrc) (size : Nat) (after :
     rw [List.map_map]; rfl
   rw [hmap]
   have h := trim_fold (entryMerge (merge (M := M) sub)) size after
+    (parts.map (collect (M := M) (.composite srcs size after sub))) KMap.empty KMap.empty
+    (by
+      intro m hm
+      obtain ⟨p, _, rfl⟩ := List.mem_map.1 hm
+      exact collectB_Supp_pv sub (compKeys srcs) p)
+    supp_empty supp_empty rfl
+  exact congrArg (fun x => compPage size after (x.entries.map fun e => (e.1, e.2.1, finalize sub e.2.2))) h
+
+/-- per-segment eviction AND the merge-time trim (any schedule) are invisible in the returned page -/
+theorem composite_lazy_trim_invisible {sub : Req} (dec : KMap (Nat × Inter M sub) → Bool) (srcs : List CompSrc) (size : Nat)
+    (after : Option Int) (parts : List (List Doc)) :
+    finalize (M := M) (.composite srcs size after sub)
+        ((parts.map (fun p => compTrim size after (collect (M := M) (.composite srcs size after sub) p))).foldl
+          (compMergeWhen dec (entryMerge (merge (M := M) sub)) size after) KMap.empty)
+      = finalize (.composite srcs size after sub)
+        ((parts.map (collect (M := M) (.composite srcs size after sub))).foldl
+          (merge (.composite srcs size after sub)) (empty (.composite srcs size after sub))) := by
+  have hfin : ∀ x : KMap (Nat × Inter M sub), finalize (M := M) (.composite srcs size after sub) x
+      = compPage size after (x.entries.map fun e => (e.1, e.2.1, finalize sub e.2.2)) := fun _ => rfl
+  rw [hfin, hfin,
+    ← page_of_trim size after _ (fun e => (e.1, e.2.1, finalize sub e.2.2)) (fun _ => rfl),
+    ← page_of_trim size after ((parts.map (collect (M := M) (.composite srcs size after sub))).foldl _ _)
+      (fun e => (e.1, e.2.1, finalize sub e.2.2)) (fun _ => rfl)]
+  have hmap : parts.map (fun p => compTrim size after (collect (M := M) (.composite srcs size after sub) p))
+      = (parts.map (collect (M := M) (.composite srcs size after sub))).map (compTrim size after) := by
+    rw [List.map_map]; rfl
+  rw [hmap]
+  have h := trim_fold_when dec (entryMerge (merge (M := M) sub)) size after
     (parts.map (collect (M := M) (.composite srcs size after sub))) KMap.empty KMap.empty
     (by
       intro m hm
